@@ -1152,6 +1152,16 @@ def rule_r13(ctx):
                     for x in ast.walk(a.value):
                         if isinstance(x, ast.Attribute) and x.attr == "outputs" and isinstance(x.value, ast.Name) and x.value.id in made:
                             outs[a.targets[0].id] = x.value.id
+            # plain aliases of either (`node = node__i1`, left behind by an expanded helper that returns several values)
+            for _ in range(3):
+                for a in own_nodes(f.node):
+                    if isinstance(a, ast.Assign) and len(a.targets) == 1 and isinstance(a.targets[0], ast.Name) and isinstance(a.value, ast.Name):
+                        if a.value.id in made and a.targets[0].id not in made:
+                            made[a.targets[0].id] = made[a.value.id]
+                        if a.value.id in outs and a.targets[0].id not in outs:
+                            outs[a.targets[0].id] = outs[a.value.id]
+            alias_of = {a.targets[0].id: a.value.id for a in own_nodes(f.node) if isinstance(a, ast.Assign) and len(a.targets) == 1 and isinstance(a.targets[0], ast.Name)
+                        and isinstance(a.value, ast.Name) and a.value.id in made}
             for node_name in made:
                 adds = [c for c in calls_in(f) if isinstance(c.func, ast.Attribute) and c.func.attr in ("append", "insert_before", "insert_after", "extend", "insert")
                         and not (isinstance(c.func.value, ast.Attribute) and c.func.value.attr in ("outputs", "inputs"))
@@ -1167,7 +1177,7 @@ def rule_r13(ctx):
                         tgt, val = st.func.value.value, st.args[-1]
                     if tgt is None:
                         continue
-                    from_node = any((isinstance(y, ast.Name) and (outs.get(y.id) == node_name)) or
+                    from_node = any((isinstance(y, ast.Name) and (outs.get(y.id) in (node_name, alias_of.get(node_name)) or alias_of.get(outs.get(y.id, "")) == node_name)) or
                                     (isinstance(y, ast.Attribute) and y.attr == "outputs" and isinstance(y.value, ast.Name) and y.value.id == node_name) for y in ast.walk(val))
                     if from_node:
                         stores.append((st, tgt))
